@@ -28,6 +28,15 @@
 (*      spans, and every value of the fields that are not configured.      *)
 (*   "pair" vector (c, t, u): two normal forms of different separable      *)
 (*      classes; their real keys must differ.                              *)
+(*   "prov" vector (c, t, u, prov): the same logical trace t handed to the  *)
+(*      key builder as payloads of every PROVENANCE the real system         *)
+(*      produces (see "Payload provenance" below): built from a map,        *)
+(*      decoded from msgpack without key-field extraction, decoded from     *)
+(*      msgpack with an ingest-time key-field set that is the same as,      *)
+(*      smaller than, disjoint from or partly absent compared with the      *)
+(*      decision-time FieldList (a rules reload while the trace is in       *)
+(*      flight), per span.  key(t) = key(u) before and after the            *)
+(*      collector's decision-time MemoizeFields.                            *)
 (* The real side is each sampler's GetSampleRate: the key it returns, and  *)
 (* the rate (>= 1 always).                                                 *)
 (***************************************************************************)
@@ -38,7 +47,15 @@ CONSTANTS DataFields,  \* field names that occur in spans (the catalogue below u
           DelimVals,   \* the tokens whose rendering contains a key delimiter (',' or the bullet)
           MaxSpans,
           CfgNames,    \* which field lists of the catalogue are enumerated
-          Samplers     \* names of the dynsampler-backed samplers
+          Samplers,    \* names of the dynsampler-backed samplers
+          \* --- payload provenance family ("prov" vectors) ---
+          GhostFields,  \* field names an ingest-time FieldList may name that no span carries
+          ProvValSet,   \* distinct values: span i of a prov trace carries the i-th of them (ProvVals[i]) in the fields it has
+          ProvMaxSpans, \* prov traces have 1..ProvMaxSpans spans (0: no prov vectors)
+          ProvCfgNames, \* decision-time field lists of the prov vectors
+          ProvUTL,      \* UseTraceLength settings of the prov vectors
+          ProvMix       \* "uniform": one provenance for all spans; "one": one provenance mixed with
+                        \* map-built spans; "all": every per-span assignment
 
 VARIABLES vec, out, act
 
@@ -62,6 +79,11 @@ Catalogue == [ a     |-> [plain |-> {"a"},      root |-> {}],
 ASSUME /\ \A n \in CfgNames : n \in DOMAIN Catalogue /\ (Catalogue[n].plain \cup Catalogue[n].root) \subseteq DataFields
        /\ DelimVals \subseteq Vals
        /\ MaxSpans \in Nat
+       /\ ProvMaxSpans \in 0..MaxSpans /\ ProvMaxSpans <= Cardinality(ProvValSet)
+       /\ ProvValSet \cap (DelimVals \cup {NoVal}) = {}
+       /\ GhostFields \cap DataFields = {}
+       /\ ProvCfgNames \subseteq CfgNames /\ ProvUTL \subseteq BOOLEAN
+       /\ ProvMix \in {"uniform", "one", "all"}
 
 Cfg(n, u) == [name |-> n, plain |-> Catalogue[n].plain, root |-> Catalogue[n].root, utl |-> u]
 Cfgs == {Cfg(n, u) : n \in CfgNames, u \in BOOLEAN}
@@ -111,25 +133,101 @@ NF(c, t) == NFOfKey(c, AKey(c, t))
 
 SepReps(c) == {NF(c, t) : t \in {x \in Traces : Separable(c, x)}}
 
+
 ----------------------------------------------------------------------------
-ClassVectors == {[kind |-> "class", cfg |-> c, t |-> t, u |-> NF(c, t)] : c \in Cfgs, t \in Traces}
+\* Payload provenance (types/payload.go).  A span's fields reach the key builder
+\* through Payload.Exists/Get, which answer from three places: the memoized map,
+\* the list of fields recorded as missing, and the serialized msgpack kept from
+\* the wire.  How these are filled depends on how the span came in:
+\*   "map"    NewPayload(cfg, map): everything is in the memoized map (/1/events, gRPC)
+\*   "wire"   msgpack kept serialized, metadata only extracted (OTLP; UnmarshalMsgpack)
+\*   "ingest" msgpack kept serialized; the key fields of the sampler configured AT
+\*            INGEST TIME (keys, root. prefix stripped) are looked for: found ones are
+\*            memoized, the others recorded as missing (/1/batch, peer traffic)
+\* At decision time the collector calls MemoizeFields with the key fields of the
+\* sampler in force THEN (all of them on the root span, the plain ones elsewhere),
+\* which may be another set if the rules were reloaded in between.
+ProvVals == SeqOf(ProvValSet)
+KeyUniverse == DataFields \cup GhostFields
+MapProv  == [kind |-> "map",  keys |-> {}]
+WireProv == [kind |-> "wire", keys |-> {}]
+Provs == {MapProv, WireProv} \cup {[kind |-> "ingest", keys |-> K] : K \in (SUBSET KeyUniverse) \ {{}}}
+
+Present(s) == {f \in DataFields : s[f] # NoVal}
+
+\* payload state after the span came in with provenance p
+Ingest(s, p) ==
+  CASE p.kind = "map"    -> [wire |-> FALSE, memo |-> Present(s), missing |-> {}]
+    [] p.kind = "wire"   -> [wire |-> TRUE,  memo |-> {},         missing |-> {}]
+    [] p.kind = "ingest" -> [wire |-> TRUE,  memo |-> p.keys \cap Present(s), missing |-> p.keys \ Present(s)]
+
+\* Payload.MemoizeFields(K): the keys neither memoized nor known missing are looked
+\* for in the serialized data; found -> memoized, not found -> missing
+Memoize(s, pl, K) ==
+  LET find == K \ (pl.memo \cup pl.missing)
+      onWire == IF pl.wire THEN Present(s) ELSE {}
+  IN [pl EXCEPT !.memo = @ \cup (find \cap onWire), !.missing = @ \cup (find \ onWire)]
+
+\* what Exists/Get deliver for field f
+FieldView(s, pl) == [f \in DataFields |->
+                  IF f \in pl.memo THEN s[f]
+                  ELSE IF f \in pl.missing THEN NoVal
+                  ELSE IF pl.wire THEN s[f] ELSE NoVal]
+
+\* CollectorWorker.makeDecision: sampler.GetKeyFields() -> MemoizeFields per span
+DecideKeys(c, t, i) == IF i = t.root THEN c.plain \cup c.root ELSE c.plain
+
+PayloadOf(c, t, q, i, decided) ==
+  LET p0 == Ingest(t.spans[i], q[i])
+  IN IF decided THEN Memoize(t.spans[i], p0, DecideKeys(c, t, i)) ELSE p0
+
+\* the trace as the key builder sees it through the payloads
+Seen(c, t, q, decided) ==
+  [spans |-> [i \in 1..Len(t.spans) |-> FieldView(t.spans[i], PayloadOf(c, t, q, i, decided))], root |-> t.root]
+
+\* prov traces: span i carries ProvVals[i] in the fields it has, so hiding any field
+\* of any span changes the abstract key of a plain field (maximal sensitivity)
+DiagTraces ==
+  UNION {{[spans |-> [i \in 1..n |-> [f \in DataFields |-> IF f \in pres[i] THEN ProvVals[i] ELSE NoVal]], root |-> r] :
+             pres \in [1..n -> SUBSET DataFields], r \in 0..n} : n \in 1..ProvMaxSpans}
+
+Range(q) == {q[i] : i \in DOMAIN q}
+ProvAssign(n) ==
+  {q \in [1..n -> Provs] :
+     \/ ProvMix = "all"
+     \/ Cardinality(Range(q)) = 1
+     \/ ProvMix = "one" /\ Cardinality(Range(q)) = 2 /\ MapProv \in Range(q)}
+
+\* how class and pair vectors are concretised: class traces alternate map-built and
+\* wire-backed spans, pair traces (normal forms) are map-built
+ClassProv(t) == [i \in 1..Len(t.spans) |-> IF i % 2 = 0 THEN WireProv ELSE MapProv]
+PairProv(t)  == [i \in 1..Len(t.spans) |-> MapProv]
+
+----------------------------------------------------------------------------
+ClassVectors == {[kind |-> "class", cfg |-> c, t |-> t, u |-> NF(c, t), prov |-> ClassProv(t)] : c \in Cfgs, t \in Traces}
+
+ProvVectors ==
+  UNION {{[kind |-> "prov", cfg |-> c, t |-> t, u |-> NF(c, t), prov |-> q] : q \in ProvAssign(Len(t.spans))} :
+            c \in {Cfg(n, b) : n \in ProvCfgNames, b \in ProvUTL}, t \in DiagTraces}
 
 \* every unordered pair of different separable classes once
 PairVectors ==
   UNION {LET reps == SeqOf(SepReps(c))
-         IN {[kind |-> "pair", cfg |-> c, t |-> reps[p[1]], u |-> reps[p[2]]] :
+         IN {[kind |-> "pair", cfg |-> c, t |-> reps[p[1]], u |-> reps[p[2]], prov |-> PairProv(reps[p[1]])] :
                 p \in {q \in (1..Len(reps)) \X (1..Len(reps)) : q[1] < q[2]}} : c \in Cfgs}
 
-Init == /\ vec \in ClassVectors \cup PairVectors
+Init == /\ vec \in ClassVectors \cup PairVectors \cup ProvVectors
         /\ out = [evaluated |-> FALSE]
         /\ act = [name |-> "Init"]
 
 \* GetSampleRate on t and on u by every sampler (one long-lived sampler per
-\* configuration: u, t, u again for a class vector, so state left behind by one
-\* trace must not leak into the next key)
+\* configuration: u, t, u, t again, so state left behind by one trace must not leak
+\* into the next key).  t's payloads are built with the provenances vec.prov; the
+\* second round asks the way the collector does: MemoizeFields(DecideKeys) on every
+\* span, then GetSampleRate.
 Eval == /\ ~out.evaluated
         /\ out' = [evaluated |-> TRUE,
-                   sameSet   |-> IF vec.kind = "class" THEN Samplers ELSE {},   \* key(t) = key(u)
+                   sameSet   |-> IF vec.kind \in {"class", "prov"} THEN Samplers ELSE {},   \* key(t) = key(u), both rounds
                    differSet |-> IF vec.kind = "pair" THEN Samplers ELSE {},    \* key(t) # key(u)
                    stableSet |-> Samplers,   \* asking again gives the same key
                    rateOKSet |-> Samplers]   \* every returned rate >= 1
@@ -143,13 +241,17 @@ Spec == Init /\ [][Next]_vars
 ----------------------------------------------------------------------------
 \* Properties of the abstract key that TLC checks on every vector
 
-TypeOK == /\ vec.kind \in {"class", "pair"}
+IsTrace(t) == /\ Len(t.spans) \in 0..MaxSpans /\ t.root \in 0..Len(t.spans)
+              /\ \A i \in 1..Len(t.spans) :
+                    t.spans[i] \in [DataFields -> Vals \cup ProvValSet \cup {NoVal}]
+TypeOK == /\ vec.kind \in {"class", "pair", "prov"}
+          /\ vec.prov \in [1..Len(vec.t.spans) -> Provs]
           /\ vec.cfg \in Cfgs
-          /\ vec.t \in Traces /\ vec.u \in Traces
+          /\ IsTrace(vec.t) /\ IsTrace(vec.u)
           /\ out.evaluated \in BOOLEAN
 
 \* the normal form is in the class of its trace and is a fixed point
-NFSound == vec.kind = "class" =>
+NFSound == vec.kind \in {"class", "prov"} =>
              /\ AKey(vec.cfg, vec.u) = AKey(vec.cfg, vec.t)
              /\ NF(vec.cfg, vec.u) = vec.u
              /\ Separable(vec.cfg, vec.u) <=> Separable(vec.cfg, vec.t)
@@ -182,6 +284,32 @@ PairsDistinct ==
   vec.kind = "pair" =>
      /\ AKey(vec.cfg, vec.t) # AKey(vec.cfg, vec.u)
      /\ Separable(vec.cfg, vec.t) /\ Separable(vec.cfg, vec.u)
+
+\* C11 across provenances.  What a payload records about its span is sound: a field
+\* is recorded missing only if the span lacks it, memoized only if it has it, a
+\* map-built payload memoizes all of it; after the decision-time MemoizeFields every
+\* decision-time key field is memoized or (rightly) missing ...
+PayloadSound ==
+  \A i \in 1..Len(vec.t.spans), decided \in BOOLEAN :
+     LET s == vec.t.spans[i]
+         pl == PayloadOf(vec.cfg, vec.t, vec.prov, i, decided)
+     IN /\ pl.missing \cap Present(s) = {}
+        /\ pl.memo \subseteq Present(s)
+        /\ ~pl.wire => pl.memo = Present(s)
+        /\ decided => DecideKeys(vec.cfg, vec.t, i) \subseteq pl.memo \cup pl.missing
+\* ... so the key builder sees the logical trace whatever the provenance and whatever
+\* key-field set was in force at ingest time, and the abstract key is a function of
+\* the trace's field values under the decision-time field list only
+ProvenanceInvariant ==
+  \A decided \in BOOLEAN :
+     /\ Seen(vec.cfg, vec.t, vec.prov, decided) = vec.t
+     /\ AKey(vec.cfg, Seen(vec.cfg, vec.t, vec.prov, decided)) = AKey(vec.cfg, vec.t)
+\* the same for every other provenance assignment of this trace, not only the enumerated
+\* ones (evaluated once per (field list, trace): on the vector whose spans are all map-built)
+AnyProvenanceInvariant ==
+  (vec.kind = "prov" /\ ~out.evaluated /\ ProvMix # "all" /\ vec.prov = PairProv(vec.t)) =>
+     \A q \in [1..Len(vec.t.spans) -> Provs], decided \in BOOLEAN :
+        AKey(vec.cfg, Seen(vec.cfg, vec.t, q, decided)) = AKey(vec.cfg, vec.t)
 
 \* the output never claims both relations
 OutConsistent == out.evaluated => out.sameSet \cap out.differSet = {}
